@@ -708,6 +708,18 @@ def corpus():
                                                                      ["z", ["sig", "s"]]], "kw"]]]),
                                _i("m2", ["mod", 1], [["bb", ["anon", [["lo", ["ref", "l0", "bp"]], ["hi", ["bun", "b", []]],
                                                                       ["z", ["sl", ["sig", "w"], ["i", 1]]]], "dict"]]])])]))
+    # HEAD before fix C01-11: a port-reference group whose source is a reference into a bundle (comparison of BundleRefs handed out `b.x.inst`)
+    inner = dict(name="Inner", ports=[["a", 1, "inout"]], sigs=[], bundles=[],
+                 insts=[_i("r", ["prim", "R", 1], [["p", ["sig", "a"]], ["n", ["sig", "a"]]])])
+    out.append(dict(defs=bdef, exts=[], top=1, style="class", mods=[
+        inner, dict(name="Top", ports=[], sigs=[], bundles=[_b("b", 0)],
+                    insts=[_i("i0", ["mod", 0], [["a", ["bm", "b", ["x"]]]]), _i("i1", ["mod", 0], [["a", ["ref", "i0", "a"]]]),
+                           _i("i2", ["mod", 0], [["a", ["sl", ["bm", "b", ["y"]], ["i", 1]]]]), _i("i3", ["mod", 0], [["a", ["ref", "i2", "a"]]])])]))
+    # HEAD before fix C01-12: a port reference inside an anonymous bundle whose group's source is a sub-bundle reference
+    out.append(dict(defs=d6, exts=[PIN, PIN2], top=2, style="class", mods=[
+        leaf, mid, dict(name="T4", ports=[], sigs=[["s", 1]], bundles=[_b("bb", 1)],
+                        insts=[_i("i0", ["mod", 0], [["bp", ["bun", "bb", ["lo"]]]]),
+                               _i("i1", ["mod", 1], [["bb", ["anon", [["lo", ["ref", "i0", "bp"]], ["hi", ["bun", "bb", ["hi"]]], ["z", ["sig", "s"]]], "kw"]]])])]))
     # names: a scalar called like a flattened member and a second bundle called like a flattened sub-bundle, on top-level ports
     out.append(dict(defs=d6, exts=[PIN], top=0, style="proc", mods=[
         dict(name="Names", ports=[["bb_z", 1, "in"]], sigs=[["bb_lo_x", 1]], bundles=[_b("bb", 1, port=True), _b("bb_lo", 0, port=True)],
